@@ -23,7 +23,7 @@ macro "t4_unfold" : tactic =>
       -- index notation
       T4.app, T4.appL, T4.comp, T4.transpose, T4.pushForward, T4.symL, T4.symR, T4.lin,
       T4.id, T4.transp, T4.idS, T4.IxI, T4.J, T4.KS, T4.KT, T4.M, T4.rot, T4.tpld, T4.tprd, T4.dCdF, T4.dBdF,
-      T2.one, T2.mul, T2.transpose, T2.trace, T2.ddot, T2.dyad, sum3, delta,
+      T2.one, T2.mul, T2.transpose, T2.trace, T2.ddot, T2.dyad, sum3, sumS, sumT, vecS, vecT, delta,
       T4.comps, pairs3, pairs2, pairs1, List.flatMap_cons, List.flatMap_nil, List.map_cons, List.map_nil,
       List.cons_append, List.nil_append, List.append_nil,
       vi, ti, pS1, pS2, pT1, pT2, w, iw, w2, iw2, shear,
@@ -47,7 +47,7 @@ macro "t4_unfold_zd" : tactic =>
       -- index notation
       T4.app, T4.appL, T4.comp, T4.transpose, T4.pushForward, T4.symL, T4.symR, T4.lin,
       T4.id, T4.transp, T4.idS, T4.IxI, T4.J, T4.KS, T4.KT, T4.M, T4.rot, T4.tpld, T4.tprd, T4.dCdF, T4.dBdF,
-      T2.one, T2.mul, T2.transpose, T2.trace, T2.ddot, T2.dyad, sum3, delta,
+      T2.one, T2.mul, T2.transpose, T2.trace, T2.ddot, T2.dyad, sum3, sumS, sumT, vecS, vecT, delta,
       T4.comps, pairs3, pairs2, pairs1, List.flatMap_cons, List.flatMap_nil, List.map_cons, List.map_nil,
       List.cons_append, List.nil_append, List.append_nil,
       vi, ti, pS1, pS2, pT1, pT2, w, iw, w2, iw2, shear,
@@ -64,7 +64,7 @@ macro "t4_eq" h:term : tactic =>
   `(tactic| (
       (try t4_unfold)
       repeat' apply And.intro
-      all_goals (first | trivial | rfl | ring1 | (mandel_ring $h))))
+      all_goals (first | rfl | trivial | ring1 | (mandel_ring $h))))
 
 /-- code-to-code equalities (one generated definition is the composition of others): after unfolding
 both sides are the same operations in the same order -/
@@ -155,6 +155,82 @@ theorem app_dBdF (F X : T2 K) :
 /-- `(C ∘ D) : A = C : (D : A)` -/
 theorem app_comp (C D : T4 K) (A : T2 K) : T4.app (T4.comp C D) A = T4.app C (T4.app D A) := by
   funext i j; simp only [T4.app, T4.comp, sum3]; ring
+
+/-! ### the storage is a faithful matrix representation
+
+Double contractions of fourth-order tensors are plain matrix products of the stored matrices, the action on a
+second-order tensor is the matrix-vector product of the stored objects (this is what the Mandel weights
+`1, √2, 2` are for). These lemmas are about the vocabulary only (no generated code); the property theorems
+use them to reduce a statement in index notation to a statement about stored matrices. -/
+section representation
+variable {c : K} (hc : c * c = 2) (h2 : (2 : K) ≠ 0)
+include hc h2
+
+macro "rep_unfold" : tactic =>
+  `(tactic| simp only [T2.tens, T2.st, T4.stoST, T4.stoTT, T4.stoTS, T4.stoS2T,
+      T4.ofST, T4.ofTT, T4.ofTS, T4.ofS2T, T2.ofTens, T2.ofSt, T4.app, T4.appL, T4.comp, T4.transpose, T2.dyad,
+      sum3, sumS, sumT, vecS, vecT, vi, ti, pS1, pS2, pT1, pT2, w, iw, w2, iw2, shear,
+      Fin.reduceFinMk, Fin.isValue, List.cons.injEq, and_true, true_and])
+macro "rep_mat" h:term : tactic =>
+  `(tactic| (funext I J; fin_cases I <;> fin_cases J <;> rep_unfold <;> (first | rfl | ring1 | mandel_ring $h)))
+macro "rep_vec" h:term : tactic =>
+  `(tactic| (rep_unfold; repeat' apply And.intro
+             all_goals (first | rfl | ring1 | mandel_ring $h)))
+
+theorem stoST_comp_ST_ST (a b : Fin 6 → Fin 6 → K) :
+    T4.stoST c (T4.comp (T4.ofST c a) (T4.ofST c b)) = fun I J => sumS fun L => a I L * b L J := by rep_mat hc
+theorem stoST_comp_TS_S2T (a : Fin 6 → Fin 9 → K) (b : Fin 9 → Fin 6 → K) :
+    T4.stoST c (T4.comp (T4.ofTS c a) (T4.ofS2T c b)) = fun I J => sumT fun L => a I L * b L J := by rep_mat hc
+theorem stoTT_comp_TT_TT (a b : Fin 9 → Fin 9 → K) :
+    T4.stoTT (T4.comp (T4.ofTT a) (T4.ofTT b)) = fun I J => sumT fun L => a I L * b L J := by rep_mat hc
+theorem stoTT_comp_S2T_TS (a : Fin 9 → Fin 6 → K) (b : Fin 6 → Fin 9 → K) :
+    T4.stoTT (T4.comp (T4.ofS2T c a) (T4.ofTS c b)) = fun I J => sumS fun L => a I L * b L J := by rep_mat hc
+theorem stoTS_comp_ST_TS (a : Fin 6 → Fin 6 → K) (b : Fin 6 → Fin 9 → K) :
+    T4.stoTS c (T4.comp (T4.ofST c a) (T4.ofTS c b)) = fun I J => sumS fun L => a I L * b L J := by rep_mat hc
+theorem stoTS_comp_TS_TT (a : Fin 6 → Fin 9 → K) (b : Fin 9 → Fin 9 → K) :
+    T4.stoTS c (T4.comp (T4.ofTS c a) (T4.ofTT b)) = fun I J => sumT fun L => a I L * b L J := by rep_mat hc
+theorem stoS2T_comp_TT_S2T (a : Fin 9 → Fin 9 → K) (b : Fin 9 → Fin 6 → K) :
+    T4.stoS2T c (T4.comp (T4.ofTT a) (T4.ofS2T c b)) = fun I J => sumT fun L => a I L * b L J := by rep_mat hc
+theorem stoS2T_comp_S2T_ST (a : Fin 9 → Fin 6 → K) (b : Fin 6 → Fin 6 → K) :
+    T4.stoS2T c (T4.comp (T4.ofS2T c a) (T4.ofST c b)) = fun I J => sumS fun L => a I L * b L J := by rep_mat hc
+
+theorem st_app_ST (a : Fin 6 → Fin 6 → K) (s : Fin 6 → K) :
+    T2.st c (T4.app (T4.ofST c a) (T2.ofSt c s)) = vecS fun I => sumS fun L => a I L * s L := by rep_vec hc
+theorem st_appL_ST (s : Fin 6 → K) (a : Fin 6 → Fin 6 → K) :
+    T2.st c (T4.appL (T2.ofSt c s) (T4.ofST c a)) = vecS fun J => sumS fun L => s L * a L J := by rep_vec hc
+theorem tens_app_TT (a : Fin 9 → Fin 9 → K) (x : Fin 9 → K) :
+    T2.tens (T4.app (T4.ofTT a) (T2.ofTens x)) = vecT fun I => sumT fun L => a I L * x L := by rep_vec hc
+theorem tens_appL_TT (x : Fin 9 → K) (a : Fin 9 → Fin 9 → K) :
+    T2.tens (T4.appL (T2.ofTens x) (T4.ofTT a)) = vecT fun J => sumT fun L => x L * a L J := by rep_vec hc
+theorem st_app_TS (a : Fin 6 → Fin 9 → K) (x : Fin 9 → K) :
+    T2.st c (T4.app (T4.ofTS c a) (T2.ofTens x)) = vecS fun I => sumT fun L => a I L * x L := by rep_vec hc
+theorem tens_appL_TS (s : Fin 6 → K) (a : Fin 6 → Fin 9 → K) :
+    T2.tens (T4.appL (T2.ofSt c s) (T4.ofTS c a)) = vecT fun J => sumS fun L => s L * a L J := by rep_vec hc
+theorem tens_app_S2T (a : Fin 9 → Fin 6 → K) (s : Fin 6 → K) :
+    T2.tens (T4.app (T4.ofS2T c a) (T2.ofSt c s)) = vecT fun I => sumS fun L => a I L * s L := by rep_vec hc
+theorem st_appL_S2T (x : Fin 9 → K) (a : Fin 9 → Fin 6 → K) :
+    T2.st c (T4.appL (T2.ofTens x) (T4.ofS2T c a)) = vecS fun J => sumT fun L => x L * a L J := by rep_vec hc
+
+theorem stoST_transpose (a : Fin 6 → Fin 6 → K) :
+    T4.stoST c (T4.transpose (T4.ofST c a)) = fun I J => a J I := by rep_mat hc
+theorem stoST_dyad (s t : Fin 6 → K) :
+    T4.stoST c (T2.dyad (T2.ofSt c s) (T2.ofSt c t)) = fun I J => s I * t J := by rep_mat hc
+theorem stoTT_dyad (x y : Fin 9 → K) :
+    T4.stoTT (T2.dyad (T2.ofTens x) (T2.ofTens y)) = fun I J => x I * y J := by rep_mat hc
+theorem stoTS_dyad (s : Fin 6 → K) (x : Fin 9 → K) :
+    T4.stoTS c (T2.dyad (T2.ofSt c s) (T2.ofTens x)) = fun I J => s I * x J := by rep_mat hc
+theorem stoS2T_dyad (x : Fin 9 → K) (s : Fin 6 → K) :
+    T4.stoS2T c (T2.dyad (T2.ofTens x) (T2.ofSt c s)) = fun I J => x I * s J := by rep_mat hc
+end representation
+
+/-- `Q(R) : C : Q(Rᵀ)` with `Q(R) = rot R` is the index formula `R_mi R_nj R_pk R_ql C_mnpq` (what the
+composition statements of `change_basis` amount to) -/
+theorem comp_rot_comp_rot (R : T2 K) (C : T4 K) :
+    T4.comp (T4.comp (T4.rot R) C) (T4.rot (T2.transpose R)) = T4.pushForward (T2.transpose R) C := by
+  funext i j k l
+  simp only [T4.comp, T4.rot, T4.pushForward, T2.transpose, sum3]
+  ring
+
 /-- bridge to the explicit matrices of Common/M3 -/
 theorem ofM3_mul (A B : M3 K) : T2.ofM3 (A * B) = T2.mul (T2.ofM3 A) (T2.ofM3 B) := by
   funext i j; fin_cases i <;> fin_cases j <;> simp [T2.ofM3, T2.mul, sum3, M3.mul_def, M3.mul]
